@@ -77,6 +77,9 @@ func runUnit(res *common.Result) {
 	case "dag3-b3":
 		res.Bound = 3
 		dags(1, 3, sigma, 3, false, *pruneFlag, nil)
+	case "dag2-unbounded": // every interleaving (no preemption bound), state-key pruning
+		res.Bound = -1
+		dags(1, 2, sigma, -1, false, true, nil)
 	case "dag3-unbounded": // no preemption bound, state-key pruning
 		res.Bound = -1
 		dags(1, 3, sigma, -1, false, true, nil)
